@@ -15,7 +15,7 @@
 (***************************************************************************)
 EXTENDS CosemLists, FiniteSets
 CONSTANT Family
-All == IF Family = "aidon" THEN AidonMsgs ELSE IF Family = "kaifa" THEN KaifaMsgs ELSE IF Family = "kamstrup" THEN KamMsgs ELSE DtAll
+All == IF Family = "aidon" THEN AidonMsgs_(0) ELSE IF Family = "kaifa" THEN KaifaMsgs_(0) ELSE IF Family = "kamstrup" THEN KamMsgs_(0) ELSE DtAll_(0)
 AllSeq == SetToSeq(All)
 VARIABLES grp, has, m
 Init == grp \in 0..15 /\ has = FALSE /\ m = AllSeq[1]
